@@ -130,6 +130,7 @@ func showHdr(h *types.SignedHeader) string {
 	}
 	return "ok hdr=" + hx.Hex(hb)
 }
+
 // valTag: the first four bytes of sha256(value): the written VALUES are part of the observation, not only
 // the keys (a save that wrote other bytes than the ones read back later is a correspondence diff at the write).
 func valTag(v []byte) string {
@@ -1089,6 +1090,28 @@ func genScenario(r *hx.Rng, w io.Writer, backend string, nops int, unclean bool)
 	fmt.Fprintln(w, "getstate")
 }
 
+// genBadgerSmoke: save two heights (one of them twice, under another header), height, state, a node metadata key,
+// reopen the real badger directory, read everything back.
+func genBadgerSmoke(r *hx.Rng, w io.Writer) {
+	fmt.Fprintln(w, "reset backend=badger mon=1")
+	b1, b1x, b2 := rblock(r, 1), rblock(r, 1), rblock(r, 2)
+	for _, l := range []string{b1.line, b2.line, b1x.line, "setheight to=2", rstateLine(r)} {
+		fmt.Fprintln(w, l)
+	}
+	fmt.Fprintf(w, "setmeta k=%s v=%s\n", hx.Hex([]byte("d")), hx.Hex([]byte{2, 0, 0, 0, 0, 0, 0, 0}))
+	fmt.Fprintf(w, "setmeta k=%s v=%s\n", hx.Hex([]byte("rhb/2/h")), hx.Hex(r.Bytes(8)))
+	fmt.Fprintln(w, "reopen")
+	for _, l := range []string{"get at=1", "get at=2", "geth at=2", "sig at=1", "get at=3", "height", "getstate"} {
+		fmt.Fprintln(w, l)
+	}
+	for _, b := range []gblock{b1, b1x, b2} {
+		fmt.Fprintf(w, "getbyhash x=%s\n", hx.Hex(b.hash))
+		fmt.Fprintf(w, "sigbyhash x=%s\n", hx.Hex(b.hash))
+	}
+	fmt.Fprintf(w, "getmeta k=%s\n", hx.Hex([]byte("d")))
+	fmt.Fprintf(w, "getmeta k=%s\n", hx.Hex([]byte("rhb/2/h")))
+}
+
 func genC14(r *hx.Rng, tier string, w io.Writer) {
 	nlog, nunclean, nbadger, nops := 250, 30, 0, 45
 	if tier == "thorough" {
@@ -1108,6 +1131,12 @@ func genC14(r *hx.Rng, tier string, w io.Writer) {
 	}
 	for i := 0; i < nbadger; i++ {
 		genScenario(r, w, "badger", 40, false)
+	}
+	if tier != "thorough" {
+		// quick: ONE small scenario on a real badger directory (saves, metadata, state, reopen, read everything back),
+		// so that the store is exercised on its production datastore on every run (costs well under 2 s); generated
+		// last among the random scenarios so that the log-backend scenarios of a seed stay what they were
+		genBadgerSmoke(r, w)
 	}
 	if tier == "thorough" {
 		// values just below badger's 1 MiB value threshold (they count in full towards the transaction size
